@@ -279,7 +279,7 @@ Proof.
     destruct (euclid (val k a) Q HQ) as (S & l0 & El & Rl & ES & _). rewrite <- ES.
     assert (EL : (val k a * P) mod (P * Q) = l0 * P).
     { symmetry. apply Z.mod_unique with (q := S); [left; nia | rewrite El; ring]. }
-    rewrite EL. symmetry. apply Z.mod_small. rewrite El. split; [nia|].
+    rewrite EL. rewrite Z.mod_small; [rewrite El; ring|]. rewrite El. split; [nia|].
     assert (S < P) by nia. nia. }
   destruct (Z.ltb_spec (nbits k) d) as [Hgt|Heq].
   { destruct (shl_exact k a (d - nbits k) Ha ltac:(lia)) as [W1 E1].
@@ -289,5 +289,5 @@ Proof.
     apply shl_big_Z; try lia; apply Z.pow_pos_nonneg; lia. }
   { assert (d = nbits k) by lia. subst d.
     split; [split; [apply wf_zero | exact Ha]|]. rewrite val_S. cbn [fst snd]. rewrite val_zero, <- EB.
-    symmetry. apply Z.mod_small. nia. }
+    rewrite Z.mod_small; [ring | nia]. }
 Qed.
